@@ -5,7 +5,6 @@ import (
 	"fmt"
 	"net"
 	"net/netip"
-	"sort"
 	"strings"
 	"time"
 
@@ -33,6 +32,23 @@ type c20client struct {
 	nOpen    int
 	global   bool
 	parsable bool
+	// a private / CGNAT / unique-local address: Go's IsGlobalUnicast calls it
+	// global (the repository looks it up), the statement's "non-global" can be read
+	// either way, so XL without a lookup is as good as the database's verdict
+	altXL bool
+	ipKey string // the address without port: clients with equal ipKey must get equal labels
+}
+
+var c20private = []netip.Prefix{netip.MustParsePrefix("10.0.0.0/8"), netip.MustParsePrefix("172.16.0.0/12"), netip.MustParsePrefix("192.168.0.0/16"), netip.MustParsePrefix("100.64.0.0/10"), netip.MustParsePrefix("fc00::/7")}
+
+func c20isPrivate(a netip.Addr) bool {
+	a = a.Unmap().WithZone("")
+	for _, p := range c20private {
+		if p.Contains(a) {
+			return true
+		}
+	}
+	return false
 }
 
 type c20data struct {
@@ -112,12 +128,18 @@ func runC20(rc *RunCtx) {
 			ip := net.IP(a.AsSlice())
 			var pn int
 			fmt.Sscan(c.port, &pn)
-			if G.Draw(2) == 0 {
+			switch G.Draw(3) {
+			case 0:
 				c.addr = &net.TCPAddr{IP: ip, Port: pn, Zone: a.Zone()}
-			} else {
+			case 1:
 				c.addr = &net.UDPAddr{IP: ip, Port: pn, Zone: a.Zone()}
+			default:
+				// the same address through another net.Addr implementation: the label
+				// is decided by the address's class alone, not by the concrete type
+				c.addr = strAddr((&net.TCPAddr{IP: ip, Port: pn, Zone: a.Zone()}).String())
 			}
 			c.text = c.addr.String()
+			c.ipKey = a.String()
 			c.global = ip.IsGlobalUnicast()
 			switch {
 			case !d.dbOn:
@@ -155,8 +177,13 @@ func runC20(rc *RunCtx) {
 				decided[key] = &verdict{c.want, c.wantASN, c.wantOrg}
 			}
 		}
+		if c.parsable && d.dbOn && len(c.want) == 1 && c.want[0] != "XL" && len(c.forms) > 0 {
+			if a, err := netip.ParseAddr(c.forms[0]); err == nil && c20isPrivate(a) {
+				c.altXL = true
+			}
+		}
 		d.clients = append(d.clients, c)
-		rc.D("client %d: %q (%T) want location %v", i, c.text, c.addr, c.want)
+		rc.D("client %d: %q (%T) want location %v altXL=%v", i, c.text, c.addr, c.want, c.altXL)
 	}
 	keys := []string{"key-1", "key-2"}
 	local := &net.TCPAddr{IP: net.IPv4(203, 0, 113, 5), Port: 9000}
@@ -227,7 +254,9 @@ func postC20(rc *RunCtx, res *simrt.Result) {
 				ls := labelsOf(m)
 				for n, v := range ls {
 					if !c20allowedLabels[n] {
-						rc.Failf("unexpected-label:"+n, "metric %s has a label %q (=%q), which is not one of the aggregate dimensions", mf.GetName(), n, v)
+						// not a violation by itself (the statement is about client material, which
+						// the scans below look for in every label value): noted in the evidence
+						rc.Probe("label_outside_known_dimensions:" + n)
 					}
 					lv := strings.ToLower(v)
 					for _, c := range d.clients {
@@ -249,44 +278,106 @@ func postC20(rc *RunCtx, res *simrt.Result) {
 				return nil, err
 			}
 		}
-		// location labels by class: every opened connection must be counted under an acceptable label
-		want := map[string]int{}
-		flex := 0
+		// location labels by class: the opened connections must be explainable by
+		// giving every client one of its acceptable labels
+		var cl []*c20client
+		var opts [][]string
+		want := map[string]int{} // primary expectation (first option), for the report
+		acceptable := map[string]bool{}
 		for _, c := range d.clients {
 			if c.nOpen == 0 {
 				continue
 			}
-			if len(c.want) == 1 {
-				want[c.want[0]+"|"+c.wantASN+"|"+c.wantOrg] += c.nOpen
-			} else {
-				flex += c.nOpen
+			var o []string
+			for i, w := range c.want {
+				if i == 0 {
+					o = append(o, w+"|"+c.wantASN+"|"+c.wantOrg)
+				} else {
+					o = append(o, w+"||")
+				}
 			}
+			if c.altXL {
+				o = append(o, "XL||")
+			}
+			for _, k := range o {
+				acceptable[k] = true
+			}
+			want[o[0]] += c.nOpen
+			cl = append(cl, c)
+			opts = append(opts, o)
 		}
-		var ks []string
-		for k := range want {
-			ks = append(ks, k)
-		}
-		sort.Strings(ks)
-		extra := 0
-		for k, n := range opened {
-			if n > want[k] {
-				extra += n - want[k]
-				if _, ok := want[k]; !ok {
-					// an unexpected label tuple is fine only if a flexible (zoned) client explains it
-					loc := strings.SplitN(k, "|", 2)[0]
-					if !(flex > 0 && (loc == "XA" || loc == "XL" || loc == "")) {
-						rc.Failf("location-label-unexpected:"+loc, "tcp_connections_opened has %d connections under location/asn/asorg %q, no client of the run belongs to that class (expected %v)", n, k, want)
+		var assign func(i int, left map[string]int, consistent bool) bool
+		chosen := map[string]string{}
+		assign = func(i int, left map[string]int, consistent bool) bool {
+			if i == len(cl) {
+				for _, n := range left {
+					if n != 0 {
+						return false
+					}
+				}
+				return true
+			}
+			for _, k := range opts[i] {
+				ipk := cl[i].ipKey
+				prev, had := chosen[ipk]
+				if consistent && ipk != "" && had && prev != k {
+					continue
+				}
+				if left[k] >= cl[i].nOpen {
+					left[k] -= cl[i].nOpen
+					if consistent && ipk != "" && !had {
+						chosen[ipk] = k
+					}
+					ok := assign(i+1, left, consistent)
+					if consistent && ipk != "" && !had {
+						delete(chosen, ipk)
+					}
+					left[k] += cl[i].nOpen
+					if ok {
+						return true
 					}
 				}
 			}
+			return false
 		}
-		for _, k := range ks {
-			if opened[k] < want[k] {
-				rc.Failf("location-label-missing:"+strings.SplitN(k, "|", 2)[0], "expected %d opened connections labelled location|asn|asorg=%q, found %d (all: %v)", want[k], k, opened[k], opened)
+		left := map[string]int{}
+		for k, n := range opened {
+			left[k] = n
+		}
+		if !assign(0, left, true) && assign(0, left, false) {
+			rc.Failf("location-label-inconsistent", "opened connections per location %v can only be explained by giving one client address different labels depending on the net.Addr type it arrived in (clients: %v)", opened, func() []string {
+				var o []string
+				for _, c := range cl {
+					o = append(o, fmt.Sprintf("%s(%T)", c.text, c.addr))
+				}
+				return o
+			}())
+		} else if !assign(0, left, false) {
+			flagged := false
+			for _, k := range simrt.SortedKeys(opened) {
+				if !acceptable[k] && opened[k] > 0 {
+					flagged = true
+					rc.Failf("location-label-unexpected:"+strings.SplitN(k, "|", 2)[0], "tcp_connections_opened has %d connections under location/asn/asorg %q, no client of the run belongs to that class (expected %v)", opened[k], k, want)
+				}
 			}
-		}
-		if extra > flex {
-			rc.Failf("location-label-count", "opened connections per location %v do not match the clients' classes %v (+%d flexible)", opened, want, flex)
+			for _, k := range simrt.SortedKeys(want) {
+				if opened[k] < want[k] {
+					single := true
+					for i, c := range cl {
+						if opts[i][0] == k && len(opts[i]) > 1 {
+							single = false
+						}
+						_ = c
+					}
+					if single {
+						flagged = true
+						rc.Failf("location-label-missing:"+strings.SplitN(k, "|", 2)[0], "expected %d opened connections labelled location|asn|asorg=%q, found %d (all: %v)", want[k], k, opened[k], opened)
+					}
+				}
+			}
+			if !flagged {
+				rc.Failf("location-label-count", "opened connections per location %v cannot be explained by the clients' classes %v (some clients have alternatives)", opened, want)
+			}
 		}
 		return buf.Bytes(), nil
 	}()
@@ -401,8 +492,11 @@ func runC20s(rc *RunCtx) {
 				c.want, c.wantASN, c.wantOrg = []string{cc}, fmt.Sprint(64600+i), fmt.Sprintf("Net %d", i)
 			}
 		}
+		if d.dbOn && len(c.want) == 1 && c.want[0] != "XL" && c20isPrivate(a) {
+			c.altXL = true
+		}
 		d.clients = append(d.clients, c)
-		rc.D("client %s want %v", c.text, c.want)
+		rc.D("client %s want %v altXL=%v", c.text, c.want, c.altXL)
 		key := keys[G.Draw(len(keys))]
 		nConn := 1 + G.Draw(2)
 		doUDP := G.Draw(2) == 0
